@@ -69,7 +69,7 @@ class ProofFacts:
             return False
         for a in alts(ab[0]):
             a = core(a)
-            if is_zero(a) or a[0] == 'mu':
+            if is_zero(a) or is_mu(a):
                 continue
             return False
         return True
